@@ -10,6 +10,9 @@ def _oct(n: int, width: int) -> bytes:
     return (f"{n:0{width - 1}o}").encode() + b"\0"
 
 
+_MAGIC_TAIL = [b"\0"]  # byte 264: the 7-byte magic "visor  " is what identifies the format, the byte behind it varies by writer
+
+
 def header(name: bytes, size: int, typ: bytes = b"0", *, visor: bool = True, offset_data: int = 0, text_pgs: int = 0, fixup_pgs: int = 0,
            mode: int = 0o644, uid: int = 0, gid: int = 0, mtime: int = 0, linkname: bytes = b"", prefix: bytes = b"", uname: bytes = b"root",
            gname: bytes = b"root", gnu: bool = False, word2: int = 0) -> bytes:
@@ -25,7 +28,7 @@ def header(name: bytes, size: int, typ: bytes = b"0", *, visor: bool = True, off
     b[156:157] = typ
     b[157 : 157 + len(linkname)] = linkname
     if visor:
-        b[257:265] = b"visor  \0"
+        b[257:265] = b"visor  " + _MAGIC_TAIL[0]
     elif gnu:
         b[257:265] = b"ustar  \0"
     else:
@@ -56,7 +59,16 @@ def pax_records(records: list[tuple[str, str]]) -> bytes:
 
 
 def build(rng, members: list[dict], *, data_order: str = "shuffle", align: int = PAGE, trailing: int = 0, gap_prob: float = 0.2,
-          far: bool = False):
+          far: bool = False, magic_tail: bytes = b"\0"):
+    _MAGIC_TAIL[0] = magic_tail
+    try:
+        return _build(rng, members, data_order=data_order, align=align, trailing=trailing, gap_prob=gap_prob, far=far)
+    finally:
+        _MAGIC_TAIL[0] = b"\0"
+
+
+def _build(rng, members: list[dict], *, data_order: str = "shuffle", align: int = PAGE, trailing: int = 0, gap_prob: float = 0.2,
+           far: bool = False):
     """members: dicts with name(str), kind in file|dir|sym|empty|std (inline ustar/GNU member), data(bytes), longname(bool), prefix(bool).
 
     -> (bytes, expected) where expected = [(name, kind, size, data|linkname)] in header order.
